@@ -14,8 +14,23 @@ pub struct EncodingCodes { _p: u8 }
 impl Clone for EncodingCodes { #[verifier::external_body] fn clone(&self) -> (r: Self) ensures r == *self { unimplemented!() } }
 pub enum Error { InvalidValue, InvalidLength, Other }
 pub struct ReaderS { pub consumed: usize }
-impl ReaderS { pub fn bytes_consumed(&self) -> (r: usize) ensures r == self.consumed { self.consumed } }
-pub struct Deserializer { pub reader: ReaderS, pub elem_format_code: Option<EncodingCodes>, pub decoded: Ghost<Seq<Option<EncodingCodes>>> }
+impl ReaderS {
+    pub fn bytes_consumed(&self) -> (r: usize) ensures r == self.consumed { self.consumed }
+    /// Read::peek (unit READERS): the next octet, if any, without consuming it
+    #[verifier::external_body]
+    pub fn peek(&mut self) -> (r: Option<u8>) ensures final(self).consumed == old(self).consumed { unimplemented!() }
+    #[verifier::external_body]
+    pub fn next(&mut self) -> (r: Result<Option<u8>, Error>) ensures final(self).consumed >= old(self).consumed { unimplemented!() }
+}
+/// `byte.try_into()` (TryFrom<u8> for EncodingCodes, unit READERS) and the codes tested here
+#[verifier::external_body]
+pub fn code_try_from(b: u8) -> (r: Result<Code, Error>) { unimplemented!() }
+pub enum Code { DescribedType, Null, Other }
+//@@ type file=serde_amqp/src/util.rs kind=enum name=StructEncoding
+//@@ end
+//@@ type file=serde_amqp/src/util.rs kind=enum name=EnumType
+//@@ end
+pub struct Deserializer { pub reader: ReaderS, pub elem_format_code: Option<EncodingCodes>, pub decoded: Ghost<Seq<Option<EncodingCodes>>>, pub struct_encoding: StructEncoding, pub enum_type: EnumType }
 pub struct SeedS { pub g: Ghost<int> }
 #[verifier::external_body]
 pub struct ElemV { _p: u8 }
@@ -26,6 +41,10 @@ pub fn seed_deserialize(seed: SeedS, de: &mut Deserializer) -> (r: Result<ElemV,
         final(de).elem_format_code is None || final(de).elem_format_code == old(de).elem_format_code,
         final(de).reader.consumed >= old(de).reader.consumed,
 { unimplemented!() }
+/// consume_list_header / consume_map_header (compound header readers: the contracts of deserialize_seq / deserialize_map in unit READERS): the count read
+/// from the wire is ANY 32-bit number the peer cares to send
+#[verifier::external_body]
+pub fn consume_header(de: &mut Deserializer) -> (r: Result<u32, Error>) { unimplemented!() }
 pub trait ErrInto<T>: Sized { spec fn conv(self) -> T; fn err_into(self) -> (r: T) ensures r == self.conv(); }
 impl ErrInto<Error> for Error { open spec fn conv(self) -> Error { self } fn err_into(self) -> (r: Error) { let e = self; assert(e == <Error as ErrInto<Error>>::conv(self)); e } }
 
@@ -134,6 +153,44 @@ impl MapAccess {
         old(self).count >= 2 && r is Ok ==> r->Ok_0 is Some && final(self).count == old(self).count - 2
             && final(self).de.decoded@ == old(self).de.decoded@.push(None).push(None)   // [C03.map.every-entry-own-constructor] key and value each with its own constructor
             && final(self).de.elem_format_code is None,
+//@@ end
+}
+
+//@@ type file=serde_amqp/src/de.rs kind=struct name=DescribedAccess
+//@@ subst `DescribedAccess<'a, R>` => `DescribedAccess` rule=R7
+//@@ subst `de: &'a mut Deserializer<R>` => `de: Deserializer` rule=R30
+//@@ end
+impl DescribedAccess {
+    pub fn consume_list_header(&mut self) -> (r: Result<u32, Error>) ensures final(self).counter == old(self).counter, final(self).field_count == old(self).field_count { consume_header(&mut self.de) }
+    pub fn consume_map_header(&mut self) -> (r: Result<u32, Error>) ensures final(self).counter == old(self).counter, final(self).field_count == old(self).field_count { consume_header(&mut self.de) }
+
+//@@ fn file=serde_amqp/src/de.rs impl=`~impl<'de,R:Read<'de>>de::SeqAccess<'de>forDescribedAccess<'_,R>` name=next_element_seed id=described_next_element_seed
+//@@ qmark
+//@@ generics
+//@@ nowhere
+//@@ param seed : SeedS
+//@@ ret Result<Option<ElemV>, Error>
+//@@ subst `byte.try_into()` => `code_try_from(byte)` rule=R16
+//@@ subst `EncodingCodes::DescribedType` => `Code::DescribedType` rule=R11
+//@@ subst `seed.deserialize(self.as_mut()).map(Some)` => `seed_deserialize(seed, &mut self.de).map(|v: ElemV| -> (o: Option<ElemV>) ensures o == Some(v) { Some(v) })` rule=R30,R18
+//@@ spec
+    ensures
+        old(self).counter >= old(self).field_count ==> r == Ok::<Option<ElemV>, Error>(None) && final(self).de == old(self).de,   // [C05.composite.trailing-fields-elided] no more fields than the (wire-declared) field count are read
+//@@ end
+
+//@@ fn file=serde_amqp/src/de.rs impl=`~impl<'de,R:Read<'de>>de::MapAccess<'de>forDescribedAccess<'_,R>` name=next_key_seed id=described_next_key_seed
+//@@ qmark
+//@@ generics
+//@@ nowhere
+//@@ param seed : SeedS
+//@@ ret Result<Option<ElemV>, Error>
+//@@ subst `byte.try_into()` => `code_try_from(byte)` rule=R16
+//@@ subst `EncodingCodes::DescribedType` => `Code::DescribedType` rule=R11
+//@@ subst `EncodingCodes::Null` => `Code::Null` rule=R11
+//@@ subst `seed.deserialize(self.as_mut()).map(Some)` => `seed_deserialize(seed, &mut self.de).map(|v: ElemV| -> (o: Option<ElemV>) ensures o == Some(v) { Some(v) })` rule=R30,R18
+//@@ spec
+    ensures
+        old(self).counter >= old(self).field_count ==> r == Ok::<Option<ElemV>, Error>(None) && final(self).de == old(self).de,
 //@@ end
 }
 
